@@ -295,6 +295,21 @@ def value_cases(prov, fn, l, _depth=0, _outer=()):
     return out
 
 
+def success_return_sites(prov, fn):
+    """the places where the function's result is produced and may be a success: [((block, index), origin)] - every
+    definition of the return place (through plain moves) that is not visibly `Err(..)` / `from_residual(..)`.
+    Used for "X succeeds only when G": each such site must be dominated by G."""
+    out = []
+    for val, conds, site in value_cases(prov, fn, 0):
+        o = peel(val)
+        if o[0] == "agg" and o[1].endswith("Result::Err"):
+            continue
+        if o[0] == "call" and o[1].endswith("FromResidual::from_residual"):
+            continue
+        out.append((site, val))
+    return out
+
+
 def guards(prov, fn):
     """every two-way decision of `fn` in one normal form, whatever its syntax (`if a == b`, `match a { K => .. , _ => .. }`,
     `if !p(x)`): [(block, pred, args, edge on which pred(args) holds, edge on which it does not)]
